@@ -172,7 +172,7 @@ func (P *Program) Explore(cfg RunConfig) *RunResult {
 				if len(res.Samples) < 8 && pr.Status == "ok" {
 					res.Samples = append(res.Samples, pr)
 				}
-				if pr.Status == "ok" && !pr.TimerNondet && len(pr.Observations) > 0 && len(res.ObsPaths) < 4000 {
+				if pr.Status == "ok" && !pr.TimerNondet && !pr.UFChoice && len(pr.Observations) > 0 && len(res.ObsPaths) < 4000 {
 					res.ObsPaths = append(res.ObsPaths, pr)
 				}
 				if cfg.OnlyPrefix == nil {
